@@ -1,18 +1,33 @@
-(* RoundTrip: from_dao (to_dao g) is isomorphic to g, for every closed heap without alternatively mapped classes:
-   any size, depth, sharing, cycles (self loops included), None, empty collections, any concrete classes in any field.
-   Outside the fragment: the two refutation witnesses (C04-a, C04-b). *)
+(* RoundTrip: from_dao (to_dao g) is isomorphic to g for every closed heap, alternatively mapped classes and DAOs below an
+   alternatively mapped DAO included, UNLESS a memo hit of from_dao handed out a mapping object that was still in progress
+   (a cycle first entered at an alternatively mapped object: finding C04-a, refutation witness below).
+   User code is a pair of Section variables [enc] / [dec] (create_instance / create_from_dao on the column values) with the
+   round-trip hypothesis the property text grants: dec c (enc c s) = s. *)
 From Coq Require Import List ZArith Bool Lia Arith PeanoNat.
 From Krrood Require Import Base.Sx Orm.ObjGraph Orm.Iso Orm.ObjGraphWalk Orm.ObjGraphWalkProofs Orm.IsoCanon Orm.ToDao Orm.FromDao.
 Import ListNotations.
 Local Open Scope nat_scope.
 
-Definition round_trip (alts : list (Z * Z)) (l : lheap) (r : addr) : option (addr * st) :=
-  match to_dao alts l r with
+Definition round_trip (enc dec : Z -> list Z -> list Z) (alts : list (Z * Z)) (ab : list Z) (l : lheap) (r : addr)
+  : option (addr * st) :=
+  match to_dao enc alts l r with
   | None => None
-  | Some (d, s1) => from_dao alts (dst s1) (nxt s1) d st0
+  | Some (d, s1) => from_dao dec alts ab (dst s1) (nxt s1) d st0
   end.
 
-(* the fragment: no object of an alternatively mapped class (and no instance of a mapping class) in the heap *)
+(* class of the final object after both directions *)
+Definition rt_cls (alts : list (Z * Z)) (c : Z) : Z :=
+  match zassoc_inv (cm alts c) alts with Some c' => c' | None => cm alts c end.
+(* the class model is coherent on the heap: every class comes back as itself (an alternatively mapped class is listed with
+   its mapping class, no plain class is somebody's mapping class) *)
+Definition alts_ok (alts : list (Z * Z)) (l : lheap) : bool :=
+  forallb (fun p : addr * obj => Z.eqb (rt_cls alts (ocls (snd p))) (ocls (snd p))) l.
+
+(* the fragment: coherent class model, and no memo hit on a mapping object in progress ([bad], decided by running the model) *)
+Definition F04w (enc dec : Z -> list Z -> list Z) (alts : list (Z * Z)) (ab : list Z) (l : lheap) (r : addr) : bool :=
+  alts_ok alts l && match round_trip enc dec alts ab l r with Some (_, s2) => negb (bad s2) | None => false end.
+
+(* the strict fragment of the first version: no object of an alternatively mapped class or of a mapping class at all *)
 Definition plain_cls (alts : list (Z * Z)) (c : Z) : bool :=
   negb (zmem c (map fst alts)) && negb (zmem c (map snd alts)).
 Definition F04 (alts : list (Z * Z)) (l : lheap) : bool :=
@@ -26,66 +41,184 @@ Proof.
   apply negb_true_iff in H1, H2. split; [now apply zassoc_none|now apply zassoc_inv_none].
 Qed.
 
-Theorem round_trip_iso alts l r : wf_heap l r = true -> F04 alts l = true ->
-  exists r' s2, round_trip alts l r = Some (r', s2) /\ iso (dst s2) r' (heap_of l) r.
+Lemma F04_alts_ok alts l : F04 alts l = true -> alts_ok alts l = true.
 Proof.
-  intros Hwf HF. unfold round_trip, to_dao.
-  assert (Hc1 : forall a o, heap_of l a = Some o -> p_cmap (P_todao alts) (ocls o) = ocls o).
-  { intros a o Ho. simpl. now rewrite (proj1 (F04_cls alts l a o HF Ho)). }
-  destruct (wf_walk_iso (P_todao alts) l r (fun _ _ _ => eq_refl) Hc1 Hwf) as [d [s1 [E1 [I1 [M1 [D1 Iso1]]]]]].
-  rewrite E1. unfold from_dao.
-  pose proof (result_closed (P_todao alts) (heap_of l) _ s1 I1 D1) as Hcl2.
-  assert (Hl2 : forall y ob, dst s1 y = Some ob -> p_late (P_fromdao alts) (p_cmap (P_fromdao alts) (ocls ob)) = None).
-  { intros y ob Hy. simpl. destruct I1 as [_ [_ [_ [J4 _]]]]. destruct (J4 _ _ Hy) as [x [o [Ho Hcls]]].
-    rewrite Hcls, (Hc1 _ _ Ho). exact (proj2 (F04_cls alts l x o HF Ho)). }
-  assert (Hd : In d (seq 0 (nxt s1))).
-  { apply in_seq. destruct I1 as [J1 _]. specialize (J1 _ _ M1). lia. }
-  destruct (walk_iso (P_fromdao alts) (dst s1) (seq 0 (nxt s1)) (fun a => In a (seq 0 (nxt s1))) Hcl2 (fun a H => H) Hl2 (fun _ _ _ => eq_refl) d Hd)
-    as [r' [s2 [E2 [I2 [M2 [D2 Iso2]]]]]].
-  rewrite seq_length in E2. exists r', s2. split; [exact E2|].
-  apply iso_sym. eapply iso_trans; eauto.
+  intros HF. unfold alts_ok. apply forallb_forall. intros [a o] Hin. simpl.
+  unfold F04 in HF. rewrite forallb_forall in HF. specialize (HF _ Hin). simpl in HF.
+  unfold plain_cls in HF. apply andb_true_iff in HF. destruct HF as [H1 H2]. apply negb_true_iff in H1, H2.
+  unfold rt_cls, cm. rewrite (zassoc_none _ _ H1), (zassoc_inv_none _ _ H2). apply Z.eqb_refl.
 Qed.
 
-(* what the correspondence evaluates *)
-Definition model_canon (alts : list (Z * Z)) (l : lheap) (r : addr) : sx :=
-  match round_trip alts l r with
+Section Codec.
+  Variables enc dec : Z -> list Z -> list Z.
+  Hypothesis Hcodec : forall c s, dec c (enc c s) = s.
+
+  Lemma todao_plain alts h Q : plain (P_todao enc alts) h Q.
+  Proof. split; intros x o _ _; reflexivity. Qed.
+
+  (* what to_dao establishes, for every class model *)
+  Lemma todao_facts alts l r : wf_heap l r = true ->
+    exists d s1, to_dao enc alts l r = Some (d, s1) /\
+      Inv (P_todao enc alts) (heap_of l) (reach (heap_of l) r) s1 /\ mlook r s1 = Some d /\ bad s1 = false /\
+      (forall x y, mlook x s1 = Some y -> done (P_todao enc alts) (heap_of l) s1 x y) /\
+      bisim_g (fobj (P_todao enc alts)) (krel s1) (heap_of l) (dst s1) /\ functional (krel s1) /\ injective (krel s1).
+  Proof.
+    intros Hwf. destruct (wf_heap_closed l r Hwf) as [Hr Hcl].
+    assert (HQ : forall a, reach (heap_of l) r a -> exists o, heap_of l a = Some o /\
+               forall t ks k, In (t, ks) (oflds o) -> In k ks -> reach (heap_of l) r k).
+    { intros a Ha. destruct (Hcl a (reach_in_keys l r a Hwf Ha)) as [o [Ho _]]. exists o. split; auto.
+      intros t ks k Hf Hk. eapply reach_step; eauto. }
+    destruct (walk_total (P_todao enc alts) (heap_of l) (keys l) (reach (heap_of l) r) HQ
+                (fun a Ha => reach_in_keys l r a Hwf Ha) r (reach_root _ _)) as [d [s1 [E [HI [_ [Hnb Hd]]]]]].
+    unfold keys in E. rewrite map_length in E.
+    pose proof (Hnb (proj1 (todao_plain alts _ _))) as Hb. destruct (Hd Hb) as [M D].
+    destruct (walk_bisim_g _ _ _ s1 HI D) as [B [Hf Hi]].
+    exists d, s1. unfold to_dao. repeat (split; auto).
+  Qed.
+
+  Lemma rt_obj alts l a o : alts_ok alts l = true -> heap_of l a = Some o ->
+    fobj (P_fromdao dec alts []) (fst (fobj (P_todao enc alts) (ocls o) (oscal o))) (snd (fobj (P_todao enc alts) (ocls o) (oscal o)))
+    = (ocls o, oscal o).
+  Proof.
+    intros Hok Ho. unfold alts_ok in Hok. rewrite forallb_forall in Hok.
+    specialize (Hok _ (assoc_Some_In _ _ _ Ho)). simpl in Hok. apply Z.eqb_eq in Hok.
+    unfold fobj. simpl. unfold rt_cls in Hok.
+    destruct (zassoc_inv (cm alts (ocls o)) alts) as [c'|] eqn:E; simpl; rewrite Hok, Hcodec; reflexivity.
+  Qed.
+
+  (* the second direction, run on any heap [L] that agrees with the DAO graph of to_dao on its addresses (the DAO graph
+     itself for C04; the rows read back in a fresh session for C05) *)
+  Lemma second_stage alts ab l r d s1 (L : heap) :
+    wf_heap l r = true -> alts_ok alts l = true -> to_dao enc alts l r = Some (d, s1) ->
+    (forall a, a < nxt s1 -> L a = dst s1 a) ->
+    exists r' s2, from_dao dec alts ab L (nxt s1) d st0 = Some (r', s2) /\
+      (bad s2 = false -> iso (dst s2) r' (heap_of l) r) /\
+      ((forall y o, y < nxt s1 -> L y = Some o -> zassoc_inv (ocls o) alts = None) -> bad s2 = false).
+  Proof.
+    intros Hwf Hok Hto HL.
+    destruct (todao_facts alts l r Hwf) as [d' [s1' [E1 [I1 [M1 [_ [D1 [B1 [F1 J1]]]]]]]]].
+    rewrite Hto in E1. inversion E1; subst d' s1'. clear E1.
+    pose proof (result_closed _ _ _ s1 (todao_plain alts _ _) I1 D1) as Hcl.
+    assert (Hcl2 : forall a, In a (seq 0 (nxt s1)) -> exists o, L a = Some o /\
+              forall t ks k, In (t, ks) (oflds o) -> In k ks -> In k (seq 0 (nxt s1))).
+    { intros a Ha. destruct (Hcl a Ha) as [o [Ho Hk]]. exists o. split; auto. rewrite HL; auto. apply in_seq in Ha. lia. }
+    assert (Hd : In d (seq 0 (nxt s1))).
+    { apply in_seq. destruct I1 as [K1 _]. specialize (K1 _ _ M1). lia. }
+    destruct (walk_total (P_fromdao dec alts ab) L (seq 0 (nxt s1)) (fun a => In a (seq 0 (nxt s1))) Hcl2 (fun a H => H) d Hd)
+      as [r' [s2 [E2 [I2 [_ [Hnb Hd2]]]]]].
+    rewrite seq_length in E2. exists r', s2. unfold from_dao. split; [exact E2|]. split.
+    - intros Hb. destruct (Hd2 Hb) as [M2 D2].
+      destruct (walk_bisim_g _ _ _ s2 I2 D2) as [B2 [F2 J2]].
+      assert (B1' : bisim_g (fobj (P_todao enc alts)) (krel s1) (heap_of l) L).
+      { eapply bisim_g_agree; [exact B1|]. intros a b Hab. apply HL. destruct I1 as [K1 _]. eapply K1; eauto. }
+      pose proof (bisim_g_comp _ _ _ _ _ _ _ B1' B2) as B.
+      apply iso_sym. exists (fun a c => exists b, krel s1 a b /\ krel s2 b c). split; [eauto|]. split; [|split].
+      + eapply bisim_g_id; [exact B|]. intros a c o _ Ho.
+        assert (E : fobj (P_fromdao dec alts ab) = fobj (P_fromdao dec alts [])) by reflexivity.
+        rewrite E. eapply rt_obj; eauto.
+      + intros a c c' [b [H1 H2]] [b' [H1' H2']]. assert (b = b') by (eapply F1; eauto). subst. eapply F2; eauto.
+      + intros a a' c [b [H1 H2]] [b' [H1' H2']]. assert (b = b') by (eapply J2; eauto). subst. eapply J1; eauto.
+    - intros Hnl. apply Hnb. intros x o Hx Ho. apply in_seq in Hx. unfold is_late. simpl.
+      rewrite (Hnl x o) by (auto; lia). reflexivity.
+  Qed.
+
+  (* C04 on the widened fragment *)
+  Theorem round_trip_iso_w alts ab l r : wf_heap l r = true -> F04w enc dec alts ab l r = true ->
+    exists r' s2, round_trip enc dec alts ab l r = Some (r', s2) /\ bad s2 = false /\ iso (dst s2) r' (heap_of l) r.
+  Proof.
+    intros Hwf HF. unfold F04w in HF. apply andb_true_iff in HF. destruct HF as [Hok Hb].
+    destruct (todao_facts alts l r Hwf) as [d [s1 [E1 _]]].
+    destruct (second_stage alts ab l r d s1 (dst s1) Hwf Hok E1 (fun _ _ => eq_refl)) as [r' [s2 [E2 [Hiso _]]]].
+    unfold round_trip in *. rewrite E1 in *. rewrite E2 in Hb. apply negb_true_iff in Hb.
+    exists r', s2. auto.
+  Qed.
+
+  (* the strict fragment (no alternatively mapped object at all) lies inside the widened one *)
+  Theorem round_trip_iso alts ab l r : wf_heap l r = true -> F04 alts l = true ->
+    exists r' s2, round_trip enc dec alts ab l r = Some (r', s2) /\ bad s2 = false /\ iso (dst s2) r' (heap_of l) r.
+  Proof.
+    intros Hwf HF. pose proof (F04_alts_ok alts l HF) as Hok.
+    destruct (todao_facts alts l r Hwf) as [d [s1 [E1 [I1 [M1 [_ [D1 _]]]]]]].
+    destruct (second_stage alts ab l r d s1 (dst s1) Hwf Hok E1 (fun _ _ => eq_refl)) as [r' [s2 [E2 [Hiso Hnb]]]].
+    assert (Hb : bad s2 = false).
+    { apply Hnb. intros y ob Hy Hyo. destruct I1 as [_ [_ [K3 _]]].
+      destruct (K3 (todao_plain alts _ _) y Hy) as [x Hx]. destruct (D1 _ _ Hx) as [o [fl' [Ho [Hd _]]]].
+      rewrite Hd in Hyo. inversion Hyo; subst ob. simpl. unfold fobj. simpl.
+      destruct (F04_cls alts l x o HF Ho) as [Z1 Z2]. unfold cm. rewrite Z1. exact Z2. }
+    unfold round_trip. rewrite E1. exists r', s2. auto.
+  Qed.
+
+  (* over histories: a FromDAOState reused for a second conversion over the DAOs the runtime keeps alive (one heap, distinct
+     addresses) converts the second root correctly, leaves the first result valid, and pins every memoised DAO *)
+  Theorem state_reuse_safe alts ab l r1 r2 :
+    wf_heap l r1 = true -> wf_heap l r2 = true -> F04 alts l = true ->
+    (forall a o, heap_of l a = Some o -> dec (ocls o) (oscal o) = oscal o) ->
+    exists d1 s1 d2 s2,
+      from_dao dec alts ab (heap_of l) (length l) r1 st0 = Some (d1, s1) /\
+      from_dao dec alts ab (heap_of l) (length l) r2 s1 = Some (d2, s2) /\
+      iso (heap_of l) r1 (dst s2) d1 /\ iso (heap_of l) r2 (dst s2) d2 /\
+      (forall x y, mlook x s2 = Some y -> In x (keep s2)).
+  Proof.
+    intros W1 W2 HF Hdec. destruct (wf_heap_closed l r1 W1) as [Hr1 Hcl]. destruct (wf_heap_closed l r2 W2) as [Hr2 _].
+    destruct (walk_twice (P_fromdao dec alts ab) (heap_of l) (keys l) (fun a => In a (keys l)) Hcl (fun a H => H) r1 r2 Hr1 Hr2)
+      as [d1 [s1 [d2 [s2 [E1 [E2 [HI [Hgood Hnb]]]]]]]].
+    unfold keys in E1, E2. rewrite map_length in E1, E2.
+    assert (Hb : bad s2 = false).
+    { apply Hnb. intros x o _ Ho. unfold is_late. simpl. now rewrite (proj2 (F04_cls alts l x o HF Ho)). }
+    destruct (Hgood Hb) as [B [Hf [Hi [K1 K2]]]].
+    assert (B' : bisim (krel s2) (heap_of l) (dst s2)).
+    { eapply bisim_g_id; [exact B|]. intros a b o _ Ho. unfold fobj. simpl.
+      rewrite (proj2 (F04_cls alts l a o HF Ho)). now rewrite (Hdec _ _ Ho). }
+    exists d1, s1, d2, s2. unfold from_dao. repeat split; auto.
+    - exists (krel s2). repeat split; auto.
+    - exists (krel s2). repeat split; auto.
+    - destruct HI as [_ [_ [_ [_ [J6 _]]]]]. exact (J6 eq_refl).
+  Qed.
+End Codec.
+
+(* ---------------------------------------------------------------- what the correspondence evaluates (identity codecs: the
+   harness interns column values so that create_instance / create_from_dao of the dataset are the identity on them) *)
+Definition model_canon (alts : list (Z * Z)) (ab : list Z) (l : lheap) (r : addr) : sx :=
+  match round_trip idc idc alts ab l r with
   | None => SL [SZ (-2)%Z]
   | Some (r', s2) => sx_canon (canon (dst s2) (nxt s2) r')
   end.
-Definition case_code (alts : list (Z * Z)) (l : lheap) (r : addr) (l' : lheap) (r' : addr) : sx :=
-  SL [SZ (classify (spec_canon l' r') (model_canon alts l r) (spec_canon l r));
-      SZ (if F04 alts l then 1 else 0); SZ (if wf_heap l r && wf_heap l' r' then 1 else 0)].
+(* second component: 1 = inside the fragment F04w (the theorem applies), third: both heaps closed *)
+Definition case_code (alts : list (Z * Z)) (ab : list Z) (l : lheap) (r : addr) (l' : lheap) (r' : addr) : sx :=
+  SL [SZ (classify (spec_canon l' r') (model_canon alts ab l r) (spec_canon l r));
+      SZ (if F04w idc idc alts ab l r then 1 else 0); SZ (if wf_heap l r && wf_heap l' r' then 1 else 0)].
 
 (* several top-level conversions sharing ONE ToDAOState and ONE FromDAOState (a graph with several roots converted root by
    root): the roots are the elements of the single collection field of a harness-side holder object at address [h];
    the holder itself is not converted, it only carries the roots (repetitions allowed: the same DAO converted twice).
    Correctness of the shared FromDAOState for two roots is C04_state_reuse_safe; the general list is compared. *)
-Definition round_trip_multi (alts : list (Z * Z)) (l : lheap) (h : addr) : option (heap * addr * nat) :=
+Definition round_trip_multi (alts : list (Z * Z)) (ab : list Z) (l : lheap) (h : addr) : option (heap * addr * nat * bool) :=
   match heap_of l h with
   | Some (mkObj c sc [(t, rs)]) =>
-      match walk_list (walk (P_todao alts) (heap_of l) (S (length l))) rs st0 with
+      match walk_list (walk (P_todao idc alts) (heap_of l) (S (length l))) rs st0 with
       | Some (ds, s1) =>
-          match walk_list (walk (P_fromdao alts) (dst s1) (S (nxt s1))) ds st0 with
-          | Some (bs, s2) => Some (upd (dst s2) (nxt s2) (mkObj c sc [(t, bs)]), nxt s2, S (nxt s2))
+          match walk_list (walk (P_fromdao idc alts ab) (dst s1) (S (nxt s1))) ds st0 with
+          | Some (bs, s2) => Some (upd (dst s2) (nxt s2) (mkObj c sc [(t, bs)]), nxt s2, S (nxt s2), bad s2)
           | None => None
           end
       | None => None
       end
   | _ => None
   end.
-Definition model_canon_multi (alts : list (Z * Z)) (l : lheap) (h : addr) : sx :=
-  match round_trip_multi alts l h with
+Definition model_canon_multi (alts : list (Z * Z)) (ab : list Z) (l : lheap) (h : addr) : sx :=
+  match round_trip_multi alts ab l h with
   | None => SL [SZ (-2)%Z]
-  | Some (hp, r, n) => sx_canon (canon hp n r)
+  | Some (hp, r, n, _) => sx_canon (canon hp n r)
   end.
-Definition case_code_multi (alts : list (Z * Z)) (l : lheap) (h : addr) (l' : lheap) (h' : addr) : sx :=
-  SL [SZ (classify (spec_canon l' h') (model_canon_multi alts l h) (spec_canon l h));
-      SZ (if F04 alts l then 1 else 0); SZ (if wf_heap l h && wf_heap l' h' then 1 else 0)].
+Definition case_code_multi (alts : list (Z * Z)) (ab : list Z) (l : lheap) (h : addr) (l' : lheap) (h' : addr) : sx :=
+  SL [SZ (classify (spec_canon l' h') (model_canon_multi alts ab l h) (spec_canon l h));
+      SZ (if alts_ok alts l && match round_trip_multi alts ab l h with Some (_, _, _, b) => negb b | None => false end then 1 else 0);
+      SZ (if wf_heap l h && wf_heap l' h' then 1 else 0)].
 
 Example multi_root_example :
   let l := [(0, mkObj 1 [7%Z] [(1%Z, [1])]); (1, mkObj 2 [] [(3%Z, [1])]); (2, mkObj 1 [8%Z] [(1%Z, [1])]);
             (3, mkObj 99 [] [(0%Z, [0; 2; 0])])] in
-  model_canon_multi [] l 3 = spec_canon l 3.
+  model_canon_multi [] [] l 3 = spec_canon l 3.
 Proof. vm_compute. reflexivity. Qed.
 
 (* ---------------------------------------------------------------- refutation witnesses *)
@@ -96,21 +229,22 @@ Definition altcycle_heap : lheap :=
   [(0, mkObj 10 [1%Z] [(1%Z, [1])]); (1, mkObj 20 [5%Z] [(2%Z, [0])])].
 
 Theorem refuted_altcycle :
-  wf_heap altcycle_heap 0 = true /\
-  exists r' s2, round_trip altcycle_alts altcycle_heap 0 = Some (r', s2) /\
+  wf_heap altcycle_heap 0 = true /\ alts_ok altcycle_alts altcycle_heap = true /\
+  exists r' s2, round_trip idc idc altcycle_alts [] altcycle_heap 0 = Some (r', s2) /\ bad s2 = true /\
     ~ iso (dst s2) r' (heap_of altcycle_heap) 0.
 Proof.
-  split; [reflexivity|].
-  destruct (round_trip altcycle_alts altcycle_heap 0) as [[r' s2]|] eqn:E; [|vm_compute in E; discriminate].
-  exists r', s2. split; auto. intros Hiso.
+  split; [reflexivity|]. split; [reflexivity|].
+  destruct (round_trip idc idc altcycle_alts [] altcycle_heap 0) as [[r' s2]|] eqn:E; [|vm_compute in E; discriminate].
+  exists r', s2. split; auto. vm_compute in E. inversion E; subst. split; [reflexivity|]. intros Hiso.
   pose proof (iso_path_obs _ _ _ _ Hiso [(0, 0); (0, 0)]) as H.
-  vm_compute in E. inversion E; subst. vm_compute in H. discriminate.
+  vm_compute in H. discriminate.
 Qed.
 
-(* the same graph entered at the Reference converts correctly: the defect depends on the entry point *)
+(* the same graph entered at the Reference lies inside the fragment and converts correctly: the defect depends on the entry point *)
 Example altcycle_other_root_ok :
-  model_canon altcycle_alts altcycle_heap 1 = spec_canon altcycle_heap 1.
-Proof. vm_compute. reflexivity. Qed.
+  F04w idc idc altcycle_alts [] altcycle_heap 1 = true /\
+  model_canon altcycle_alts [] altcycle_heap 1 = spec_canon altcycle_heap 1.
+Proof. split; vm_compute; reflexivity. Qed.
 
 (* C04-b (FIXED by repo commit 32013a0): one FromDAOState used for two loads.
    OLD code ([from_dao_old], no keep_alive): the DAO of the first load has been released and the DAO of the second load
@@ -124,13 +258,13 @@ Definition admissible_next (s : st) (h1 h2 : heap) : Prop := forall x, In x (kee
 
 Theorem old_state_reuse_regression :
   exists r1 s1 r2 s2,
-    from_dao_old [] reuse_dao1 1 0 st0 = Some (r1, s1) /\
+    from_dao_old idc [] [] reuse_dao1 1 0 st0 = Some (r1, s1) /\
     keep s1 = [] /\ admissible_next s1 reuse_dao1 reuse_dao2 /\
-    from_dao_old [] reuse_dao2 1 0 s1 = Some (r2, s2) /\
+    from_dao_old idc [] [] reuse_dao2 1 0 s1 = Some (r2, s2) /\
     ~ iso (dst s2) r2 reuse_dao2 0.
 Proof.
-  destruct (from_dao_old [] reuse_dao1 1 0 st0) as [[r1 s1]|] eqn:E1; [|vm_compute in E1; discriminate].
-  destruct (from_dao_old [] reuse_dao2 1 0 s1) as [[r2 s2]|] eqn:E2;
+  destruct (from_dao_old idc [] [] reuse_dao1 1 0 st0) as [[r1 s1]|] eqn:E1; [|vm_compute in E1; discriminate].
+  destruct (from_dao_old idc [] [] reuse_dao2 1 0 s1) as [[r2 s2]|] eqn:E2;
     [|vm_compute in E1; inversion E1; subst; vm_compute in E2; discriminate].
   exists r1, s1, r2, s2.
   vm_compute in E1. inversion E1; subst. split; auto. split; [reflexivity|]. split; [intros x []|]. split; auto.
@@ -141,34 +275,22 @@ Qed.
 (* CURRENT code: the first load pins its DAO, so a second heap with a different DAO at that address is not a state the
    runtime can produce *)
 Theorem state_reuse_scenario_excluded :
-  exists r1 s1, from_dao [] reuse_dao1 1 0 st0 = Some (r1, s1) /\ In 0 (keep s1) /\
+  exists r1 s1, from_dao idc [] [] reuse_dao1 1 0 st0 = Some (r1, s1) /\ In 0 (keep s1) /\
     ~ admissible_next s1 reuse_dao1 reuse_dao2.
 Proof.
-  destruct (from_dao [] reuse_dao1 1 0 st0) as [[r1 s1]|] eqn:E1; [|vm_compute in E1; discriminate].
+  destruct (from_dao idc [] [] reuse_dao1 1 0 st0) as [[r1 s1]|] eqn:E1; [|vm_compute in E1; discriminate].
   exists r1, s1. vm_compute in E1. inversion E1; subst. split; auto. split; [simpl; auto|].
   intros H. specialize (H 0 (or_introl eq_refl)). vm_compute in H. discriminate.
 Qed.
 
-(* and in general: a FromDAOState reused for a second conversion over the DAOs the runtime keeps alive (one heap, distinct
-   addresses) converts the second root correctly, leaves the first result valid, and pins every memoised DAO *)
-Theorem state_reuse_safe alts l r1 r2 :
-  wf_heap l r1 = true -> wf_heap l r2 = true -> F04 alts l = true ->
-  exists d1 s1 d2 s2,
-    from_dao alts (heap_of l) (length l) r1 st0 = Some (d1, s1) /\
-    from_dao alts (heap_of l) (length l) r2 s1 = Some (d2, s2) /\
-    iso (heap_of l) r1 (dst s2) d1 /\ iso (heap_of l) r2 (dst s2) d2 /\
-    (forall x y, mlook x s2 = Some y -> In x (keep s2)).
-Proof.
-  intros W1 W2 HF. destruct (wf_heap_closed l r1 W1) as [Hr1 Hcl]. destruct (wf_heap_closed l r2 W2) as [Hr2 _].
-  assert (Hl : forall a o, heap_of l a = Some o -> p_late (P_fromdao alts) (p_cmap (P_fromdao alts) (ocls o)) = None).
-  { intros a o Ho. simpl. exact (proj2 (F04_cls alts l a o HF Ho)). }
-  destruct (walk_twice (P_fromdao alts) (heap_of l) (keys l) (fun a => In a (keys l)) Hcl (fun a H => H) Hl
-              (fun _ _ _ => eq_refl) r1 r2 Hr1 Hr2) as [d1 [s1 [d2 [s2 [E1 [E2 [HI [I1 I2]]]]]]]].
-  unfold keys in E1, E2. rewrite map_length in E1, E2.
-  exists d1, s1, d2, s2. unfold from_dao. repeat split; auto.
-  destruct HI as [_ [_ [_ [_ [_ J6]]]]]. exact (J6 eq_refl).
-Qed.
-
 (* with a fresh state per load (the default of from_dao) the second load is correct *)
-Example fresh_state_ok : exists r2 s2, from_dao [] reuse_dao2 1 0 st0 = Some (r2, s2) /\ path_obs (dst s2) r2 [] = Some (30%Z, [5%Z]).
+Example fresh_state_ok : exists r2 s2, from_dao idc [] [] reuse_dao2 1 0 st0 = Some (r2, s2) /\ path_obs (dst s2) r2 [] = Some (30%Z, [5%Z]).
 Proof. eexists. eexists. split; vm_compute; reflexivity. Qed.
+
+(* non-vacuity of the widened fragment: an alternatively mapped object (class 10) shared by two references and lying on a
+   cycle that is entered at a plain object, a DAO below an alternatively mapped DAO (class 12, listed in [ab]) *)
+Example widened_fragment_example :
+  let l := [(0, mkObj 20 [5%Z] [(2%Z, [1]); (3%Z, [1])]); (1, mkObj 10 [1%Z] [(1%Z, [0]); (4%Z, [2])]); (2, mkObj 12 [3%Z; 4%Z] [])] in
+  wf_heap l 0 = true /\ F04 altcycle_alts l = false /\ F04w idc idc altcycle_alts [12%Z] l 0 = true /\
+  model_canon altcycle_alts [12%Z] l 0 = spec_canon l 0.
+Proof. repeat split; vm_compute; reflexivity. Qed.
